@@ -320,12 +320,27 @@ func (e *Engine) onData(pkt *spec.Data, sigCovered enc.Wire, raw enc.Wire, pitTo
 func (e *Engine) onNack(name enc.Name, reason uint64) {
 	e.pitLock.Lock()
 	defer e.pitLock.Unlock()
-	n := e.pit.ExactMatch(name)
+
+	// The PIT is keyed by the name without the implicit digest (see Express).
+	var impSha256 []byte = nil
+	nodeName := name
+	if len(name) > 0 && name[len(name)-1].Typ == enc.TypeImplicitSha256DigestComponent {
+		impSha256 = name[len(name)-1].Val
+		nodeName = name[:len(name)-1]
+	}
+
+	n := e.pit.ExactMatch(nodeName)
 	if n == nil {
 		e.log.WithField("name", name.String()).Warn("Received Nack for an unknown interest. Drop.")
 		return
 	}
+	newList := make([]*pendInt, 0, len(n.Value()))
 	for _, entry := range n.Value() {
+		// the Nack is for the Interest with exactly this name (same implicit digest, or none)
+		if (entry.impSha256 == nil) != (impSha256 == nil) || !bytes.Equal(entry.impSha256, impSha256) {
+			newList = append(newList, entry)
+			continue
+		}
 		entry.timeoutCancel()
 		if entry.callback != nil {
 			entry.callback(ndn.ExpressCallbackArgs{
@@ -337,7 +352,7 @@ func (e *Engine) onNack(name enc.Name, reason uint64) {
 		}
 	}
 	// The entries are resolved: drop them, then remove the node only if nothing else needs it.
-	n.SetValue(nil)
+	n.SetValue(newList)
 	n.DeleteIf(func(lst []*pendInt) bool {
 		return len(lst) == 0
 	})
